@@ -102,7 +102,7 @@ CHECKS = {
    design_ref="DESIGN.md section 6, C17",
    note="Trusted: TLC, the four guarded hooks (add-only, HWLOC_VERIF), the digest battery. Race-freedom is decided only for the shared state the model names plus all topology memory (through the read-only mapping); no ThreadSanitizer verdict is used."),
  "C07": dict(
-   technique="Explicit TLA+ specification of synthetic descriptions (spec/Synthetic.tla: concrete syntax Render, build relation, export and round-trip relations) model-checked with TLC on a bounded grammar (spec/MC_Synthetic.tla: BFS with seed-selected stripes plus simulation, incl. the 128-level boundary from both sides); the emitted descriptions are rendered by the specification, replayed on the ASan/UBSan-built library by harness/hwv_synthetic.c and validated as ndjson traces by TLC against spec/TraceSynthetic.tla",
+   technique="TLA+ specification of the synthetic description grammar and its semantics (spec/Synthetic.tla: Render, BuildRel, ExportRetRel, SnprintfRel, FlagTextRel, RoundTripRel, all parameterised by the type filters of the target topology); TLC enumerates the bounded grammar (typed, untyped, instruction-cache levels, the 128-level boundary) and, per description, the set_type_filter calls made before or after set_synthetic (every non-default kind on its level types, pairs, documented refusals) from spec/MC_Synthetic.tla (BFS stripes + simulation) plus seeded hostile strings; each behaviour is run against the rebuilt ASan library (exports at every buffer length, reload of every export text) and trace-validated by TLC (spec/TraceSynthetic.tla)",
    category="model_checking",
    text="Bounded model checking plus conformance. Every word of the bounded grammar (<= 3-4 levels, arities <= 3, all index forms, all 16 export flag words, every buffer length, the 128-level boundary) that is emitted satisfies BuildRel / ExportRetRel / SnprintfRel / RoundTripRel on the real code, and 2k-11k hostile strings satisfy the weak contract (0 or -1/EINVAL, no crash). Not a proof beyond the bounds; stripes and simulation make quick a sample, thorough a 50k-description cap.",
    design_ref="DESIGN.md section 6, C07 and section 12.3",
